@@ -37,7 +37,11 @@ type Exec struct {
 	Corpus *index.Corpus
 	opened bool
 	dead   bool
+	hung   bool // an op did not return within OpTimeout: the index is stuck, nothing more is executed
 }
+
+// OpTimeout bounds every op of the interpreter (arrival + wait for quiescence, restart, reindex, ...).
+var OpTimeout = 20 * time.Second
 
 var (
 	liveMu   sync.Mutex
@@ -64,6 +68,15 @@ func NewExec() func([]string) string {
 
 // Close releases the KV and removes its temporary directory.
 func (e *Exec) Close() {
+	if e.hung {
+		// the stuck goroutine still holds the index and its KV: only the directory is reclaimed
+		if e.dir != "" {
+			os.RemoveAll(e.dir)
+			e.dir = ""
+		}
+		e.dead = true
+		return
+	}
 	if e.Ix != nil {
 		e.Ix.VerifAwaitReindex()
 	}
@@ -125,9 +138,23 @@ func (e *Exec) receive(id int) error {
 	return err
 }
 
-// Do executes one op line.
+// Do executes one op line under a watchdog: an op that does not return within OpTimeout answers
+// `hang` (a stuck index: an await that never ends, a deadlock in New, ...), and so does every later op.
 func (e *Exec) Do(ws []string) string {
-	return hk.Guard(func() string { return e.do(ws) })
+	if e.hung {
+		return "hang"
+	}
+	done := make(chan string, 1)
+	go func() { done <- hk.Guard(func() string { return e.do(ws) }) }()
+	t := time.NewTimer(OpTimeout)
+	defer t.Stop()
+	select {
+	case out := <-done:
+		return out
+	case <-t.C:
+		e.hung = true
+		return "hang"
+	}
 }
 
 func (e *Exec) do(ws []string) string {
